@@ -610,13 +610,27 @@ func run20(r *mon.Run) {
 		}
 		wants := map[string]want{}
 		var order []string
-		ne := 1 + g.Intn(10)
+		ne := 4 + g.Intn(8)
+		if h%5 == 4 {
+			ne = 1 + g.Intn(3)
+		}
 		for k := 0; k < ne; k++ {
 			var e entry
 			e.Request.Method = mon.Pick(g, []string{"GET", "GET", "GET", "POST", "HEAD", "OPTIONS"})
 			u := fmt.Sprintf("https://%s/%s", mon.Pick(g, []string{"example.com", "cdn.example.net:8443"}), mon.Pick(g, []string{"", "a.js", "b/c.css", "img%20x.png", "q?x=1&y=2", "é", "a+b"}))
 			if k > 0 && g.Chance(1, 5) {
 				u = entries[g.Intn(len(entries))].Request.URL // duplicate URL
+			}
+			// every HAR holds a dropped entry (preflight / POST / aborted) FOLLOWED by the GET of the same URL, and a GET repeated
+			switch {
+			case ne >= 4 && k == ne-4:
+				u, e.Request.Method = fmt.Sprintf("https://example.com/preflighted-%d", h), mon.Pick(g, []string{"OPTIONS", "POST"})
+			case ne >= 4 && k == ne-3:
+				u, e.Request.Method = fmt.Sprintf("https://example.com/preflighted-%d", h), "GET"
+			case ne >= 4 && k == ne-2:
+				u, e.Request.Method = fmt.Sprintf("https://example.com/twice-%d", h), "GET"
+			case ne >= 4 && k == ne-1:
+				u, e.Request.Method = fmt.Sprintf("https://example.com/twice-%d", h), "GET"
 			}
 			e.Request.URL = u
 			e.Request.Headers = []nvp{{":authority", "example.com"}, {":method", "GET"}, {"Accept", "*/*"}, {mon.Pick(g, []string{"Cookie", "cookie", "Authorization", "X-Ok"}), "secret"}}
